@@ -42,6 +42,22 @@ def gen(seed, tier):
     for op in PAIR:
         for t in texts:
             out.append(f"{op} {sa([1], [t])} {sa([len(subs)], subs)}")
+    # long strings (17..200 characters) and many strings per array: chunked scans, capacity-based fast paths
+    longs = ["ab-" * 11, "a" * 64, "-" * 33, " " * 17 + "x" + " " * 17, "a,b," * 25, ("word " * 20).strip(), "A" * 100 + "b",
+             "x\ny\rz\r\n" * 9, "ab" * 50 + "-" + "ba" * 50]
+    longs += ["".join(rng.choice(ALPHA) for _ in range(L)) for L in (17, 31, 32, 33, 63, 64, 65, 127, 128, 129)]
+    for op in UNARY:
+        out.append(f"{op} {sa([len(longs)], longs)}")
+        out.append(f"{op} {sa([5, 7], [rng.choice(small + small3) for _ in range(35)])}")
+    for op in PAIR:
+        for t in longs[::2]:
+            out.append(f"{op} {sa([1], [t])} {sa([len(subs)], subs)}")
+        out.append(f"{op} {sa([33], [rng.choice(texts) for _ in range(33)])} {sa([1], [rng.choice(subs[1:])])}")
+    for op in ("s_lstrip", "s_rstrip", "s_strip"):
+        out.append(f"{op} {sa([len(longs)], longs)} n")
+        out.append(f"{op} {sa([len(longs)], longs)} {sa([1], ['ab- '])}")
+    for op in ("s_center", "s_ljust", "s_rjust"):
+        out.append(f"{op} {sa([len(longs)], longs)} {arr([1], [150])} n")
     # strip family
     for op in ("s_lstrip", "s_rstrip", "s_strip"):
         for t in texts:
